@@ -98,3 +98,13 @@ void sha1_process_bytes(const void *buffer, struct sha1_ctx *ctx, size_t size)
 void *sha1_finish_ctx(struct sha1_ctx *ctx, void *resbuf)
 { emit(((uint64_t)ctx->count[1] << 32) | ctx->count[0], resbuf, 20); memset(ctx, 0, sizeof *ctx); return resbuf; }
 #endif
+
+#ifdef M_SHA256_STATICS
+/* ideal-hash model of alg-sha256.c's internal entry points (bodies removed from the
+   real unit) for the HMAC-SHA256 query of C16 */
+void SHA256_Init(SHA256_CTX *ctx) { memset(ctx, 0, sizeof *ctx); ctx->count = 0x53323536ULL; }
+void __CPROVER_file_local_alg_sha256_c__SHA256_Update(SHA256_CTX *ctx, const void *in, size_t len, uint32_t *tmp32)
+{ ctx->count = absorb(ctx->count, in, len); }
+void __CPROVER_file_local_alg_sha256_c__SHA256_Final(uint8_t digest[32], SHA256_CTX *ctx, uint32_t *tmp32)
+{ emit(ctx->count, digest, 32); }
+#endif
